@@ -167,6 +167,8 @@ func (fc *FnCtx) builtinExtern(st *State, callee *types.Func, recv *Val, args []
 		fc.assert(st, app("=", fc.heldGet(st, addr), "0"), "lock", "mutex not already held by this goroutine (self-deadlock)", call.Pos())
 		fc.heldSet(st, addr, mode)
 		fc.acquire(st, mi)
+		st.csSnap = nil
+		st.csSnap = st.clone()
 		if mode == "2" && mi != nil {
 			st.rsnap = copySnap(st.rsnap)
 			st.rsnap[addr] = st.clone()
